@@ -72,8 +72,8 @@ ASSUMPTIONS = [
 QUICK_JOBS = 8
 _DECIDING = ["grid2d.array.container", "grid2d.array.pairing", "grid2d.grid.pairing", "grid2d.vector.pairing",
              "grid2d.list.wrapped", "grid2d.received_unchanged", "irregular.array.pairing", "irregular.grid.pairing",
-             "irregular.vector.pairing", "irregular.list.wrapped", "grid1d.line", "grid1d.array.pairing",
-             "grid1d.grid.pairing", "project.grid2d.line", "project.grid2d.pairing", "project.grid1d.line",
+             "irregular.vector.pairing", "irregular.list.wrapped", "irregular.received_unchanged", "grid1d.line",
+             "grid1d.array.pairing", "grid1d.list.wrapped", "grid1d.grid.pairing", "project.grid2d.line", "project.grid2d.pairing", "project.grid1d.line",
              "project.grid1d.pairing", "project.irregular.pairing", "radial.outside_unchanged", "radial.inside_radius",
              "radial.inside_ray", "radial.result_pairing", "transform.received", "transform.pairing",
              "transform.not_twice"]
